@@ -10,7 +10,9 @@
                       it only has to emit an event log  EOpen / EReopen / EClose / EDecl
      events_ok      : small validator of that log (proved sound in VhdlLexProofs.v): every
                       declared name is ident_ok and differs, ignoring case, from every name
-                      declared in a region that is open at that point
+                      declared in the same declarative region (an inner region may hide an
+                      outer name: legal VHDL; such hidings are counted, and a USE that resolves
+                      to a hiding label is an error of the scanner's static part)
      check_design   : per file  decl_sites = names of the EDecl events (the scanner cannot drop
                       a declaration), all sites ident_ok, events_ok, scanner found no static
                       error (use of undeclared name, width mismatch in the simple forms,
@@ -24,13 +26,209 @@ Open Scope string_scope.
 
 (* ------------------------------------------------------------------ tokens *)
 
+(* reserved words the scanner dispatches on are constructors (pattern matching on string
+   literals is very expensive to compile and extract); all others are Kother *)
+Inductive kw :=
+| Kentity
+| Karchitecture
+| Kpackage
+| Kbody
+| Kis
+| Kof
+| Kend
+| Kport
+| Kgeneric
+| Kmap
+| Kprocess
+| Kblock
+| Kbegin
+| Kif
+| Kthen
+| Kelse
+| Kelsif
+| Kcase
+| Kwhen
+| Kothers
+| Ksignal
+| Kconstant
+| Kvariable
+| Kattribute
+| Ksubtype
+| Ktype
+| Kcomponent
+| Kfunction
+| Klibrary
+| Kuse
+| Kin
+| Kout
+| Kinout
+| Kbuffer
+| Klinkage
+| Kdownto
+| Kall
+| Kopen
+| Kassert
+| Kreport
+| Kreturn
+| Knull
+| Kwait
+| Kother (s : string).
+
+Definition kw_table : list (string * kw) :=
+  [("entity", Kentity);
+   ("architecture", Karchitecture);
+   ("package", Kpackage);
+   ("body", Kbody);
+   ("is", Kis);
+   ("of", Kof);
+   ("end", Kend);
+   ("port", Kport);
+   ("generic", Kgeneric);
+   ("map", Kmap);
+   ("process", Kprocess);
+   ("block", Kblock);
+   ("begin", Kbegin);
+   ("if", Kif);
+   ("then", Kthen);
+   ("else", Kelse);
+   ("elsif", Kelsif);
+   ("case", Kcase);
+   ("when", Kwhen);
+   ("others", Kothers);
+   ("signal", Ksignal);
+   ("constant", Kconstant);
+   ("variable", Kvariable);
+   ("attribute", Kattribute);
+   ("subtype", Ksubtype);
+   ("type", Ktype);
+   ("component", Kcomponent);
+   ("function", Kfunction);
+   ("library", Klibrary);
+   ("use", Kuse);
+   ("in", Kin);
+   ("out", Kout);
+   ("inout", Kinout);
+   ("buffer", Kbuffer);
+   ("linkage", Klinkage);
+   ("downto", Kdownto);
+   ("all", Kall);
+   ("open", Kopen);
+   ("assert", Kassert);
+   ("report", Kreport);
+   ("return", Kreturn);
+   ("null", Knull);
+   ("wait", Kwait)].
+
+Definition kw_name (k : kw) : string :=
+  match k with
+  | Kentity => "entity"
+  | Karchitecture => "architecture"
+  | Kpackage => "package"
+  | Kbody => "body"
+  | Kis => "is"
+  | Kof => "of"
+  | Kend => "end"
+  | Kport => "port"
+  | Kgeneric => "generic"
+  | Kmap => "map"
+  | Kprocess => "process"
+  | Kblock => "block"
+  | Kbegin => "begin"
+  | Kif => "if"
+  | Kthen => "then"
+  | Kelse => "else"
+  | Kelsif => "elsif"
+  | Kcase => "case"
+  | Kwhen => "when"
+  | Kothers => "others"
+  | Ksignal => "signal"
+  | Kconstant => "constant"
+  | Kvariable => "variable"
+  | Kattribute => "attribute"
+  | Ksubtype => "subtype"
+  | Ktype => "type"
+  | Kcomponent => "component"
+  | Kfunction => "function"
+  | Klibrary => "library"
+  | Kuse => "use"
+  | Kin => "in"
+  | Kout => "out"
+  | Kinout => "inout"
+  | Kbuffer => "buffer"
+  | Klinkage => "linkage"
+  | Kdownto => "downto"
+  | Kall => "all"
+  | Kopen => "open"
+  | Kassert => "assert"
+  | Kreport => "report"
+  | Kreturn => "return"
+  | Knull => "null"
+  | Kwait => "wait"
+  | Kother s => s
+  end.
+
+Fixpoint assoc_find {A} (x : string) (l : list (string * A)) : option A :=
+  match l with
+  | [] => None
+  | (y, a) :: r => if String.eqb x y then Some a else assoc_find x r
+  end.
+
+Definition kw_of (lc : string) : kw :=
+  match assoc_find lc kw_table with Some k => k | None => Kother lc end.
+
+Inductive sym :=
+| SLp
+| SRp
+| SSemi
+| SColon
+| SComma
+| SDot
+| STick
+| SArrow
+| SLe
+| SAssign
+| SMinus
+| Sother (s : string).
+
+Definition sym_table : list (string * sym) :=
+  [("(", SLp);
+   (")", SRp);
+   (";", SSemi);
+   (":", SColon);
+   (",", SComma);
+   (".", SDot);
+   ("'", STick);
+   ("=>", SArrow);
+   ("<=", SLe);
+   (":=", SAssign);
+   ("-", SMinus)].
+
+Definition sym_name (y : sym) : string :=
+  match y with
+  | SLp => "("
+  | SRp => ")"
+  | SSemi => ";"
+  | SColon => ":"
+  | SComma => ","
+  | SDot => "."
+  | STick => "'"
+  | SArrow => "=>"
+  | SLe => "<="
+  | SAssign => ":="
+  | SMinus => "-"
+  | Sother s => s
+  end.
+
+Definition sym_of (s : string) : sym :=
+  match assoc_find s sym_table with Some y => y | None => Sother s end.
+
 Inductive token :=
 | TId  (s : string)      (* identifier-shaped word that is not reserved *)
-| TKw  (s : string)      (* reserved word, lower-cased *)
+| TKw  (k : kw)          (* reserved word *)
 | TNum (s : string)
 | TStr (s : string)
 | TChr (c : ascii)
-| TSym (s : string)
+| TSym (y : sym)
 | TBad (c : ascii).
 
 Fixpoint srev_app (s acc : string) : string :=
@@ -52,7 +250,7 @@ Definition is_symchar (c : ascii) : bool :=
 Definition mk_word (racc : string) : token :=
   let s := srev racc in
   let l := lower s in
-  if memb l vhdl2008_reserved then TKw l else TId s.
+  if memb l vhdl2008_reserved then TKw (kw_of l) else TId s.
 
 Definition s1 (c : ascii) : string := String c EmptyString.
 Definition s2 (c d : ascii) : string := String c (String d EmptyString).
@@ -66,7 +264,7 @@ Definition from_none (pt : bool) (c : ascii) : list token * lmode * bool :=
   if is_letter c then ([], MWord (s1 c), pt)
   else if is_digit c then ([], MNum (s1 c), pt)
   else if aeq c """"%char then ([], MStr EmptyString, pt)
-  else if aeq c "'"%char then (if pt then ([TSym "'"], MNone, false) else ([], MTick0, false))
+  else if aeq c "'"%char then (if pt then ([TSym STick], MNone, false) else ([], MTick0, false))
   else if is_space c then ([], MNone, pt)
   else if is_symchar c then ([], MSym c, pt)
   else ([TBad c], MNone, false).
@@ -78,7 +276,7 @@ Definition flush (m : lmode) : list token :=
   | MNum a => [TNum (srev a)]
   | MStr _ => [TBad """"%char]
   | MTick0 | MTick1 _ => [TBad "'"%char]
-  | MSym c => [TSym (s1 c)]
+  | MSym c => [TSym (sym_of (s1 c))]
   end.
 
 Fixpoint lex_go (m : lmode) (pt : bool) (s : string) : list token :=
@@ -89,7 +287,9 @@ Fixpoint lex_go (m : lmode) (pt : bool) (s : string) : list token :=
       | MNone => let '(t, m', pt') := from_none pt c in t ++ lex_go m' pt' r
       | MWord a =>
           if is_idchar c then lex_go (MWord (String c a)) pt r
-          else let '(t, m', pt') := from_none true c in mk_word a :: t ++ lex_go m' pt' r
+          else let w := mk_word a in
+               let '(t, m', pt') := from_none (match w with TId _ => true | _ => false end) c in
+               w :: t ++ lex_go m' pt' r
       | MNum a =>
           if is_digit c || is_us c then lex_go (MNum (String c a)) pt r
           else let '(t, m', pt') := from_none false c in TNum (srev a) :: t ++ lex_go m' pt' r
@@ -103,9 +303,9 @@ Fixpoint lex_go (m : lmode) (pt : bool) (s : string) : list token :=
           else TBad "'"%char :: lex_go MNone false r
       | MSym x =>
           if aeq x "-"%char && aeq c "-"%char then lex_go MComment false r
-          else if compound x c then TSym (s2 x c) :: lex_go MNone false r
+          else if compound x c then TSym (sym_of (s2 x c)) :: lex_go MNone false r
           else let '(t, m', pt') := from_none (aeq x ")"%char) c in
-               TSym (s1 x) :: t ++ lex_go m' pt' r
+               TSym (sym_of (s1 x)) :: t ++ lex_go m' pt' r
       end
   end.
 
@@ -117,11 +317,11 @@ Definition ident_ok (s : string) : bool :=
   legal_basic_ident s && negb (memb (lower s) vhdl2008_reserved).
 
 Definition is_kw (k : string) (t : token) : bool :=
-  match t with TKw s => String.eqb s k | _ => false end.
+  match t with TKw s => String.eqb (kw_name s) k | _ => false end.
 Definition is_sym (k : string) (t : token) : bool :=
-  match t with TSym s => String.eqb s k | _ => false end.
+  match t with TSym s => String.eqb (sym_name s) k | _ => false end.
 Definition kw_in (ks : list string) (t : token) : bool :=
-  match t with TKw s => memb s ks | _ => false end.
+  match t with TKw s => memb (kw_name s) ks | _ => false end.
 
 Definition no_bad (toks : list token) : bool :=
   forallb (fun t => match t with TBad _ => false | _ => true end) toks.
@@ -157,33 +357,33 @@ Fixpoint decl_sites (prev : option token) (toks : list token) : option (list str
       match t, r with
       (* D1 *)
       | TKw k, TId x :: TSym c :: _ =>
-          if stmt_start prev && memb k decl_kws then add x
-          else if stmt_start prev && String.eqb k "attribute" && String.eqb c ":" then add x
-          else if String.eqb k "entity" then rest     (* entity work . x *)
-          else if String.eqb k "package" && negb (match prev with Some p => is_kw "end" p | None => false end)
+          if stmt_start prev && memb (kw_name k) decl_kws then add x
+          else if stmt_start prev && String.eqb (kw_name k) "attribute" && String.eqb (sym_name c) ":" then add x
+          else if String.eqb (kw_name k) "entity" then rest     (* entity work . x *)
+          else if String.eqb (kw_name k) "package" && negb (match prev with Some p => is_kw "end" p | None => false end)
                then add x
           else rest
       | TKw k, TId x :: TKw k2 :: _ =>
-          if stmt_start prev && memb k decl_kws then add x
-          else if String.eqb k "entity" && String.eqb k2 "is" then add x
-          else if String.eqb k "package" && String.eqb k2 "is"
+          if stmt_start prev && memb (kw_name k) decl_kws then add x
+          else if String.eqb (kw_name k) "entity" && String.eqb (kw_name k2) "is" then add x
+          else if String.eqb (kw_name k) "package" && String.eqb (kw_name k2) "is"
                   && negb (match prev with Some p => is_kw "end" p | None => false end) then add x
           else rest
       | TKw k, TKw k2 :: _ =>
-          if stmt_start prev && memb k decl_kws then None
-          else if stmt_start prev && String.eqb k "attribute" then None
-          else if String.eqb k "entity" && negb (memb k2 ["is"]) && stmt_start prev then None
-          else if String.eqb k "package" && negb (String.eqb k2 "body")
+          if stmt_start prev && memb (kw_name k) decl_kws then None
+          else if stmt_start prev && String.eqb (kw_name k) "attribute" then None
+          else if String.eqb (kw_name k) "entity" && negb (memb (kw_name k2) ["is"]) && stmt_start prev then None
+          else if String.eqb (kw_name k) "package" && negb (String.eqb (kw_name k2) "body")
                   && negb (match prev with Some p => is_kw "end" p | None => false end) then None
           else rest
       (* D3 / D4 *)
       | TId x, TSym c :: TKw k :: _ =>
-          if String.eqb c ":" && (memb k mode_kws || memb k ["process"; "block"; "entity"]) then add x
+          if String.eqb (sym_name c) ":" && (memb (kw_name k) mode_kws || memb (kw_name k) ["process"; "block"; "entity"]) then add x
           else rest
       | TId x, TSym c :: TId _ :: TKw k :: _ =>
-          if String.eqb c ":" && memb k ["port"; "generic"] then add x else rest
+          if String.eqb (sym_name c) ":" && memb (kw_name k) ["port"; "generic"] then add x else rest
       | TKw _, TSym c :: TKw k :: _ =>
-          if String.eqb c ":" && (memb k mode_kws || memb k ["process"; "block"; "entity"])
+          if String.eqb (sym_name c) ":" && (memb (kw_name k) mode_kws || memb (kw_name k) ["process"; "block"; "entity"])
              && negb (match prev with Some p => is_kw "of" p | None => false end)
           then None else rest
       | _, _ => rest
@@ -209,18 +409,29 @@ Fixpoint events_go (stack : list (list string)) (evs : list event) : bool :=
       match stack with
       | [] => false
       | top :: st =>
-          ident_ok n && negb (memb (lower n) (concat stack)) && events_go ((lower n :: top) :: st) r
+          ident_ok n && negb (memb (lower n) top) && events_go ((lower n :: top) :: st) r
       end
   end.
 
 Definition events_ok (evs : list event) : bool := events_go [] evs.
+
+(* specification side: the stack of open regions after a prefix of the log *)
+Fixpoint open_after (stack : list (list string)) (evs : list event) : option (list (list string)) :=
+  match evs with
+  | [] => Some stack
+  | EOpen :: r => open_after ([] :: stack) r
+  | EReopen ns :: r => open_after (map lower ns :: stack) r
+  | EClose :: r => match stack with [] => None | _ :: st => open_after st r end
+  | EDecl n :: r =>
+      match stack with [] => None | top :: st => open_after ((lower n :: top) :: st) r end
+  end.
 
 Definition event_decls (evs : list event) : list string :=
   flat_map (fun e => match e with EDecl n => [n] | _ => [] end) evs.
 
 (* ------------------------------------------------------------------ the scanner *)
 
-Inductive dclass := CPortIn | CPortOut | CPortInout | CSignal | CVariable | CConstant | COther.
+Inductive dclass := CPortIn | CPortOut | CPortInout | CSignal | CVariable | CConstant | CLabel | COther.
 Inductive width := WBit | WVec (n : N) | WUnknown.
 Record decl := mkDecl { d_name : string; d_class : dclass; d_width : width }.
 
@@ -309,17 +520,20 @@ Definition declare (st : sstate) (d : decl) (ctx : list token) : res sstate :=
   | f :: fs =>
       let lc := lower (d_name d) in
       if negb (ident_ok (d_name d)) then Err "declared identifier is illegal or reserved" ctx
-      else match find_frames lc (frames st) with
-      | Some _ => Err "identifier declared twice (ignoring case) in nested declarative regions" ctx
+      else match find_decl lc (f_decls f) with
+      | Some _ => Err "identifier declared twice (ignoring case) in one declarative region" ctx
       | None =>
           let f' := mkFrame (f_kind f) (f_name f) (d :: f_decls f) (f_begun f) (f_pre f) (f_join f)
                             (f_else f) (f_first f) in
           let st1 := add_event (upd_frames st (f' :: fs)) (EDecl (d_name d)) in
           let hide := memb lc (exported st) || memb lc predefined in
+          let shadow := match find_frames lc fs with Some _ => true | None => false end in
+          let h1 := if hide then ("predefined:" ++ d_name d) :: hides st1 else hides st1 in
+          let h2 := if shadow then ("outer:" ++ d_name d) :: h1 else h1 in
           let st2 := mkS (frames st1) (assigned st1) (entities st1)
                          (match f_kind f with FPackage => lc :: exported st1 | _ => exported st1 end)
                          (insts st1) (events st1) (n_uses st1) (n_assign st1) (n_widthchk st1)
-                         (n_varreads st1) (if hide then d_name d :: hides st1 else hides st1) in
+                         (n_varreads st1) h2 in
           Ok st2
       end
   end.
@@ -386,14 +600,14 @@ Definition vec_types : list string :=
 Definition parse_type (toks : list token) : width :=
   match toks with
   | [TId t] => if memb (lower t) bit_types then WBit else WUnknown
-  | TId t :: TSym "(" :: TNum n :: TKw "downto" :: TNum z :: TSym ")" :: [] =>
+  | TId t :: TSym SLp :: TNum n :: TKw Kdownto :: TNum z :: TSym SRp :: [] =>
       if memb (lower t) vec_types then
         match num_of n, num_of z with
         | Some a, Some 0%N => WVec (a + 1)
         | _, _ => WUnknown
         end
       else WUnknown
-  | TId t :: TSym "(" :: TSym "-" :: TNum n :: TKw "downto" :: TNum z :: TSym ")" :: [] =>
+  | TId t :: TSym SLp :: TSym SMinus :: TNum n :: TKw Kdownto :: TNum z :: TSym SRp :: [] =>
       if memb (lower t) vec_types then
         match num_of n, num_of z with
         | Some 1%N, Some 0%N => WVec 0
@@ -441,6 +655,10 @@ Definition check_reads (st : sstate) (toks : list token) (ctx : list token) : re
   match find (fun x => negb (known st x)) ids with
   | Some _ => Err "use of an identifier that is not declared (declared-before-use)" ctx
   | None =>
+      if existsb (fun x => match find_frames (lower x) (frames st) with
+                           | Some d => match d_class d with CLabel => true | _ => false end
+                           | None => false end) ids
+      then Err "object name resolves to a label that hides it" ctx else
       let vars := filter (is_variable st) ids in
       match find (fun x => negb (memb (lower x) (assigned st))) vars with
       | Some _ => Err "process variable read before it is written" ctx
@@ -455,7 +673,7 @@ Definition width_of (st : sstate) (x : string) : width :=
 Definition simple_width (st : sstate) (toks : list token) : width :=
   match toks with
   | [TId m] => width_of st m
-  | [TId f; TSym "("; TId m; TSym ")"] =>
+  | [TId f; TSym SLp; TId m; TSym SRp] =>
       if memb (lower f) conv_names then width_of st m else WUnknown
   | [TStr s] => WVec (N.of_nat (String.length s))
   | [TChr _] => WBit
@@ -466,10 +684,10 @@ Definition simple_width (st : sstate) (toks : list token) : width :=
 
 Definition parse_port (toks : list token) : option decl :=
   match toks with
-  | TId n :: TSym ":" :: TKw m :: ty =>
-      let c := if String.eqb m "in" then Some CPortIn
-               else if String.eqb m "out" then Some CPortOut
-               else if memb m ["inout"; "buffer"; "linkage"] then Some CPortInout else None in
+  | TId n :: TSym SColon :: TKw m :: ty =>
+      let c := if String.eqb (kw_name m) "in" then Some CPortIn
+               else if String.eqb (kw_name m) "out" then Some CPortOut
+               else if memb (kw_name m) ["inout"; "buffer"; "linkage"] then Some CPortInout else None in
       match c with Some c => Some (mkDecl n c (parse_type ty)) | None => None end
   | _ => None
   end.
@@ -487,7 +705,7 @@ Fixpoint declare_all (st : sstate) (items : list (list token)) (ctx : list token
 (* PORT ( ... ) chunk *)
 Definition handle_ports (st : sstate) (chunk : list token) : res sstate :=
   match chunk with
-  | TKw "port" :: rest =>
+  | TKw Kport :: rest =>
       match paren_group rest with
       | Some (inner, []) => declare_all st (split_top ";" 0 [] inner) chunk
       | _ => Err "malformed PORT clause" chunk
@@ -516,14 +734,14 @@ Definition handle_assign (st : sstate) (chunk : list token) : res sstate :=
                            end in
       match rest1 with
       | TSym op :: expr =>
-          if negb (String.eqb op "<=" || String.eqb op ":=") then Err "statement not understood" chunk
+          if negb (String.eqb (sym_name op) "<=" || String.eqb (sym_name op) ":=") then Err "statement not understood" chunk
           else match find_frames (lower n) (frames st) with
           | None => Err "assignment target is not declared (declared-before-use)" chunk
           | Some d =>
               let isvar := match d_class d with CVariable => true | _ => false end in
               let okcls := match d_class d with
-                           | CVariable => String.eqb op ":="
-                           | CSignal | CPortOut | CPortInout => String.eqb op "<="
+                           | CVariable => String.eqb (sym_name op) ":="
+                           | CSignal | CPortOut | CPortInout => String.eqb (sym_name op) "<="
                            | _ => false
                            end in
               if negb okcls then Err "assignment operator does not fit the class of the target" chunk
@@ -547,7 +765,7 @@ Definition handle_simple_stmt (st : sstate) (chunk : list token) : res sstate :=
   match chunk with
   | [] => Ok st
   | TKw k :: rest =>
-      if memb k ["assert"; "report"; "return"; "null"; "wait"] then check_reads st rest chunk
+      if memb (kw_name k) ["assert"; "report"; "return"; "null"; "wait"] then check_reads st rest chunk
       else Err "statement not understood" chunk
   | _ => handle_assign st chunk
   end.
@@ -600,11 +818,11 @@ Definition parse_assoc (st : sstate) (toks : list token) : res (string * width *
   | Some (formal, actual) =>
       let fname := match formal with
                    | [TId f] => Some f
-                   | [TId c; TSym "("; TId f; TSym ")"] => Some f
+                   | [TId c; TSym SLp; TId f; TSym SRp] => Some f
                    | _ => None
                    end in
       match fname with
-      | Some f => Ok (f, (match actual with [TKw "open"] => WUnknown | _ => simple_width st actual end), actual)
+      | Some f => Ok (f, (match actual with [TKw Kopen] => WUnknown | _ => simple_width st actual end), actual)
       | None => Err "port map formal not understood" toks
       end
   | None => Err "positional port association" toks
@@ -617,7 +835,7 @@ Fixpoint assoc_all (st : sstate) (items : list (list token)) (acc : list (string
   | it :: r =>
       do p <- parse_assoc st it;
       let '(f, w, actual) := p in
-      do st1 <- (match actual with [TKw "open"] => Ok st | _ => check_reads st actual it end);
+      do st1 <- (match actual with [TKw Kopen] => Ok st | _ => check_reads st actual it end);
       assoc_all st1 r ((f, w) :: acc)
   end.
 
@@ -630,21 +848,21 @@ Definition handle_inst (st : sstate) (label : string) (rest : list token) (chunk
   : res sstate :=
   let '(ename, rest1) :=
     match rest with
-    | TKw "entity" :: TId _ :: TSym "." :: TId e :: r => (Some e, r)
+    | TKw Kentity :: TId _ :: TSym SDot :: TId e :: r => (Some e, r)
     | TId e :: r => (Some e, r)
     | _ => (None, rest)
     end in
   match ename with
   | None => Err "instantiation not understood" chunk
   | Some e =>
-      do st1 <- declare st (mkDecl label COther WUnknown) chunk;
+      do st1 <- declare st (mkDecl label CLabel WUnknown) chunk;
       let rest2 := match rest1 with
-                   | TKw "generic" :: TKw "map" :: r =>
+                   | TKw Kgeneric :: TKw Kmap :: r =>
                        match paren_group r with Some (_, r') => r' | None => r end
                    | _ => rest1
                    end in
       match rest2 with
-      | TKw "port" :: TKw "map" :: r =>
+      | TKw Kport :: TKw Kmap :: r =>
           match paren_group r with
           | Some (inner, []) =>
               do p <- assoc_all st1 (split_top "," 0 [] inner) [];
@@ -662,38 +880,41 @@ Definition handle_inst (st : sstate) (label : string) (rest : list token) (chunk
 Definition handle_decl (st : sstate) (chunk : list token) : res sstate :=
   match chunk with
   | [] => Ok st
-  | TKw k :: TId n :: TSym ":" :: rest =>
-      if memb k ["signal"; "constant"; "variable"] then
+  | TKw k :: TId n :: TSym SColon :: rest =>
+      if memb (kw_name k) ["signal"; "constant"; "variable"] then
         let '(ty, init) := match break_top ":=" 0 [] rest with
                            | Some (a, b) => (a, b)
                            | None => (rest, [])
                            end in
         do st1 <- check_reads st (ty ++ init) chunk;
-        let c := if String.eqb k "signal" then CSignal
-                 else if String.eqb k "variable" then CVariable else CConstant in
+        let c := if String.eqb (kw_name k) "signal" then CSignal
+                 else if String.eqb (kw_name k) "variable" then CVariable else CConstant in
         let wt := parse_type ty in
         let wi := simple_width st1 init in
         if negb (match init with [] => true | _ => width_compat wt wi end)
         then Err "initial value has a different width" chunk
         else declare st1 (mkDecl n c wt) chunk
-      else if String.eqb k "attribute" then
+      else if String.eqb (kw_name k) "attribute" then
         do st1 <- check_reads st rest chunk; declare st1 (mkDecl n COther WUnknown) chunk
       else Err "declaration not understood" chunk
-  | TKw "attribute" :: TId a :: TKw "of" :: TId x :: TSym ":" :: _ :: TKw "is" :: v =>
+  | TKw Kattribute :: TId a :: TKw Kof :: TId x :: TSym SColon :: _ :: TKw Kis :: v =>
       do st1 <- check_reads st [TId a; TId x] chunk; check_reads st1 v chunk
-  | TKw k :: TId n :: TKw "is" :: rest =>
-      if memb k ["subtype"; "type"] then
+  | TKw k :: TId n :: TKw Kis :: rest =>
+      if memb (kw_name k) ["subtype"; "type"] then
         do st1 <- check_reads st rest chunk; declare st1 (mkDecl n COther WUnknown) chunk
       else Err "declaration not understood" chunk
-  | TKw "component" :: TId n :: rest =>
+  | TKw Kcomponent :: TId n :: rest =>
       do st1 <- declare st (mkDecl n COther WUnknown) chunk;
       let st2 := push st1 (new_frame FComponent n []) in
       (match rest with
        | [] => Ok st2
-       | TKw "is" :: [] => Ok st2
-       | _ => handle_ports st2 (match rest with TKw "is" :: r => r | _ => rest end)
+       | TKw Kis :: [] => Ok st2
+       | _ => handle_ports st2 (match rest with TKw Kis :: r => r | _ => rest end)
        end)
-  | TKw "function" :: TId _ :: _ => Ok st      (* package declarations of the fixed helper functions *)
+  | TKw Kfunction :: TId f :: _ =>      (* package declarations of the fixed helper functions *)
+      if negb (ident_ok f) then Err "declared identifier is illegal or reserved" chunk
+      else Ok (mkS (frames st) (assigned st) (entities st) (lower f :: exported st) (insts st) (events st)
+                   (n_uses st) (n_assign st) (n_widthchk st) (n_varreads st) (hides st))
   | _ => Err "declaration not understood" chunk
   end.
 
@@ -701,14 +922,14 @@ Definition handle_decl (st : sstate) (chunk : list token) : res sstate :=
 Definition handle_process (st : sstate) (label : option string) (rest : list token)
   (chunk : list token) : res sstate :=
   do st1 <- (match label with
-             | Some l => declare st (mkDecl l COther WUnknown) chunk
+             | Some l => declare st (mkDecl l CLabel WUnknown) chunk
              | None => Ok st
              end);
   let '(sens, rest1) := match paren_group rest with
                         | Some (g, r) => (g, r)
                         | None => ([], rest)
                         end in
-  let sens' := match sens with [TKw "all"] => [] | _ => sens end in
+  let sens' := match sens with [TKw Kall] => [] | _ => sens end in
   do st2 <- check_reads st1 sens' chunk;
   let st3 := upd_assigned (push st2 (new_frame FProcess (match label with Some l => l | None => "" end) [])) [] in
   handle_decl st3 rest1.
@@ -732,26 +953,26 @@ Fixpoint find_entity (lc : string) (es : list (string * list decl)) : option (li
 
 Definition handle_end (st : sstate) (rest : list token) (chunk : list token) : res sstate :=
   match rest with
-  | [TKw "if"] => end_branching st FIf chunk
-  | [TKw "case"] => end_branching st FCase chunk
+  | [TKw Kif] => end_branching st FIf chunk
+  | [TKw Kcase] => end_branching st FCase chunk
   | _ =>
       match top_frame st with
       | None => Err "END without open region" chunk
       | Some f =>
           let ok := match f_kind f, rest with
-                    | FProcess, [TKw "process"] => true
-                    | FProcess, [TKw "process"; TId _] => true
-                    | FBlock, [TKw "block"] => true
-                    | FBlock, [TKw "block"; TId _] => true
-                    | FComponent, [TKw "component"] => true
-                    | FComponent, [TKw "component"; TId _] => true
+                    | FProcess, [TKw Kprocess] => true
+                    | FProcess, [TKw Kprocess; TId _] => true
+                    | FBlock, [TKw Kblock] => true
+                    | FBlock, [TKw Kblock; TId _] => true
+                    | FComponent, [TKw Kcomponent] => true
+                    | FComponent, [TKw Kcomponent; TId _] => true
                     | FEntity, [TId n] => String.eqb (lower n) (lower (f_name f))
                     | FEntity, [] => true
                     | FArch, [TId n] => String.eqb (lower n) (lower (f_name f))
                     | FArch, [] => true
-                    | FPackage, [TKw "package"; TId n] => String.eqb (lower n) (lower (f_name f))
+                    | FPackage, [TKw Kpackage; TId n] => String.eqb (lower n) (lower (f_name f))
                     | FPackage, [TId n] => String.eqb (lower n) (lower (f_name f))
-                    | FPackageBody, [TKw "package"; TKw "body"; TId n] => String.eqb (lower n) (lower (f_name f))
+                    | FPackageBody, [TKw Kpackage; TKw Kbody; TId n] => String.eqb (lower n) (lower (f_name f))
                     | _, _ => false
                     end in
           if negb ok then Err "END does not match the open region" chunk
@@ -787,29 +1008,29 @@ Definition handle (st : sstate) (chunk : list token) (term : token) : res sstate
     | FPackageBody =>
         (* bodies of the fixed helper functions are skipped *)
         match chunk with
-        | TKw "end" :: TKw "package" :: rest => handle_end st (TKw "package" :: rest) chunk
+        | TKw Kend :: TKw Kpackage :: rest => handle_end st (TKw Kpackage :: rest) chunk
         | _ => Ok st
         end
     | _ =>
     if is_kw "begin" term then
       match chunk with
       | [] => Ok (set_begun st)
-      | TId l :: TSym ":" :: TKw "process" :: rest =>
+      | TId l :: TSym SColon :: TKw Kprocess :: rest =>
           do st1 <- handle_process st (Some l) rest chunk; Ok (set_begun st1)
-      | TKw "process" :: rest =>
+      | TKw Kprocess :: rest =>
           do st1 <- handle_process st None rest chunk; Ok (set_begun st1)
-      | TId l :: TSym ":" :: TKw "block" :: rest =>
-          do st1 <- declare st (mkDecl l COther WUnknown) chunk;
+      | TId l :: TSym SColon :: TKw Kblock :: rest =>
+          do st1 <- declare st (mkDecl l CLabel WUnknown) chunk;
           do st2 <- handle_decl (push st1 (new_frame FBlock l [])) rest; Ok (set_begun st2)
       | _ => Err "unexpected tokens before BEGIN" chunk
       end
     else if is_kw "then" term then
       match chunk with
-      | TKw "if" :: cond =>
+      | TKw Kif :: cond =>
           if negb (in_statements st) then Err "IF outside statement part" chunk else
           do st1 <- check_reads st cond chunk;
           Ok (push_quiet st1 (mkFrame FIf "" [] true (assigned st1) None false true))
-      | TKw "elsif" :: cond =>
+      | TKw Kelsif :: cond =>
           do st1 <- next_branch st false chunk; check_reads st1 cond chunk
       | _ => Err "unexpected tokens before THEN" chunk
       end
@@ -820,18 +1041,18 @@ Definition handle (st : sstate) (chunk : list token) (term : token) : res sstate
       end
     else if is_kw "is" term then
       match chunk with
-      | [TKw "entity"; TId n] =>
+      | [TKw Kentity; TId n] =>
           do st1 <- declare st (mkDecl n COther WUnknown) chunk; Ok (push st1 (new_frame FEntity n []))
-      | [TKw "architecture"; TId a; TKw "of"; TId e] =>
+      | [TKw Karchitecture; TId a; TKw Kof; TId e] =>
           if negb (ident_ok a) then Err "declared identifier is illegal or reserved" chunk else
           match find_entity (lower e) (entities st) with
           | Some ports => Ok (push_reopen st (new_frame FArch a ports))
           | None => Err "architecture of an entity that was not seen before" chunk
           end
-      | [TKw "package"; TId n] =>
+      | [TKw Kpackage; TId n] =>
           do st1 <- declare st (mkDecl n COther WUnknown) chunk; Ok (push st1 (new_frame FPackage n []))
-      | [TKw "package"; TKw "body"; TId n] => Ok (push st (new_frame FPackageBody n []))
-      | TKw "case" :: e =>
+      | [TKw Kpackage; TKw Kbody; TId n] => Ok (push st (new_frame FPackageBody n []))
+      | TKw Kcase :: e =>
           if negb (in_statements st) then Err "CASE outside statement part" chunk else
           do st1 <- check_reads st e chunk;
           Ok (push_quiet st1 (mkFrame FCase "" [] true (assigned st1) None false true))
@@ -840,28 +1061,28 @@ Definition handle (st : sstate) (chunk : list token) (term : token) : res sstate
     else (* terminator ; *)
       match chunk with
       | [] => Ok st
-      | TKw "library" :: _ => Ok st
-      | TKw "use" :: _ => Ok st
-      | TKw "end" :: rest => handle_end st rest chunk
-      | TKw "port" :: _ =>
+      | TKw Klibrary :: _ => Ok st
+      | TKw Kuse :: _ => Ok st
+      | TKw Kend :: rest => handle_end st rest chunk
+      | TKw Kport :: _ =>
           match f_kind f with
           | FEntity | FComponent => handle_ports st chunk
           | _ => Err "PORT clause outside entity/component" chunk
           end
-      | TKw "when" :: rest =>
+      | TKw Kwhen :: rest =>
           match break_top "=>" 0 [] rest with
           | Some (choice, stmt) =>
-              do st1 <- next_branch st (match choice with [TKw "others"] => true | _ => false end) chunk;
-              do st2 <- check_reads st1 (match choice with [TKw "others"] => [] | _ => choice end) chunk;
+              do st1 <- next_branch st (match choice with [TKw Kothers] => true | _ => false end) chunk;
+              do st2 <- check_reads st1 (match choice with [TKw Kothers] => [] | _ => choice end) chunk;
               handle_simple_stmt st2 stmt
           | None => Err "WHEN without =>" chunk
           end
-      | TId l :: TSym ":" :: TKw "process" :: rest => handle_process st (Some l) rest chunk
-      | TKw "process" :: rest => handle_process st None rest chunk
-      | TId l :: TSym ":" :: TKw "block" :: rest =>
-          do st1 <- declare st (mkDecl l COther WUnknown) chunk;
+      | TId l :: TSym SColon :: TKw Kprocess :: rest => handle_process st (Some l) rest chunk
+      | TKw Kprocess :: rest => handle_process st None rest chunk
+      | TId l :: TSym SColon :: TKw Kblock :: rest =>
+          do st1 <- declare st (mkDecl l CLabel WUnknown) chunk;
           handle_decl (push st1 (new_frame FBlock l [])) rest
-      | TId l :: TSym ":" :: rest =>
+      | TId l :: TSym SColon :: rest =>
           if in_statements st && negb (in_process st) then handle_inst st l rest chunk
           else Err "label not understood" chunk
       | _ =>
@@ -927,7 +1148,7 @@ Definition check_file_tokens (st : sstate) (toks : list token) : res sstate :=
             let evs := new_events (events st) (events st1) in
             if list_eqb (event_decls evs) sites then Ok st1
             else Err "declaration sites and scanner log differ"
-                     (map TId sites ++ [TSym "|"] ++ map TId (event_decls evs))
+                     (map TId sites ++ [TSym (Sother "|")] ++ map TId (event_decls evs))
         | _ => Err "file ends with an open region" []
         end
   end.
@@ -968,10 +1189,19 @@ Record summary := mkSummary {
 Definition order_files (files : list (list token)) : list (list token) :=
   let '(pk, others) := partition has_package files in pk ++ others.
 
+Definition sites_of (toks : list token) : list string :=
+  match decl_sites None toks with Some l => l | None => [] end.
+
+Definition sites_ok (files : list (list token)) : bool :=
+  forallb (fun f => match decl_sites None f with Some l => forallb ident_ok l | None => false end) files.
+
 Definition check_design_tokens (files : list (list token)) : res summary :=
   do st <- check_files init_sstate (order_files files);
   let evs := rev (events st) in
-  if negb (events_ok evs) then Err "event log rejected (duplicate / illegal identifier in a region)" []
+  if negb (sites_ok files) then Err "declared identifier is illegal or reserved" []
+  else if negb (events_ok evs) then Err "event log rejected (duplicate / illegal identifier in a region)" []
+  else if negb (list_eqb (event_decls evs) (flat_map sites_of (order_files files)))
+  then Err "declaration sites and scanner log differ" []
   else
     do p <- check_insts st;
     let '(a, b) := p in
